@@ -833,7 +833,7 @@ class Consumer(object):
         if self._start_d is not None and not self._start_d.called:
             self._start_d.errback(failure)
 
-    def _handle_processor_error(self, failure):
+    def _handle_processor_error(self, failure, start_d=None):
         """Handle a failure in the processing of a block of messages
 
         This method is called when the processor func fails while processing
@@ -845,6 +845,10 @@ class Consumer(object):
         # deferred is just the cancelling we initiated.  If so, we skip
         # notifying via the _start_d deferred, as it will be 'callback'd at the
         # end of stop()
+        if start_d is not None and self._start_d is not start_d:
+            # The call belongs to a run which stop() has ended (and whose start()
+            # Deferred it fired); we may have been started again since.
+            return
         if not (self._stopping and failure.check(CancelledError)):
             if self._start_d:  # Make sure we're not already stopped
                 self._start_d.errback(failure)
@@ -1043,7 +1047,7 @@ class Consumer(object):
             # Record the offset of the last processed message and check autocommit
             d.addCallback(self._update_processed_offset, last_offset)
             # Add an error handler
-            d.addErrback(self._handle_processor_error)
+            d.addErrback(self._handle_processor_error, start_d)
             # If we were stopped, cancel the processor deferred. Note, we have to
             # do this here, in addition to in stop() because the processor func
             # itself could have called stop(), and then when it returned, we re-set
